@@ -107,7 +107,9 @@ def handle (op : String) (j : Json) : Option (Except String Json) :=
     let af ← getRat j "added_fraction"
     if cfg.unscored = Unscored.min then throw "STAR with unscored_value='min' is not modelled"
     pure (match starRunoff ac af cfg votes n with
-      | .ok pw => withKeys (schulze pw n) (schulzeScores pw)
+      | .ok r =>
+        if r.1.length ≤ 1 then withKeys ((r.1.take n).map Slot.cand) (r.1.map (fun c => (c, 0)))
+        else withKeys (schulze r.2 n) (schulzeScores r.2)
       | .error e => errJson e)
   | "allocated" => some do
     let votes ← getScoreProfile j
